@@ -16,7 +16,8 @@ a function, so that equivalent shapes translate to the same table (never keyed o
   * `module_constants` / `resolve_constants` — a Name whose only binding is ONE module-level assignment of a literal
                        (tuple / list / string / number) is replaced by the literal.
   * `ifexp_assign`   — `x = a if c else b`  ->  `if c: x = a else: x = b`.
-  * `match_to_if`    — `match s: case <literal|dotted name>: ...` -> if/elif on `==` (other patterns: left alone).
+  * `match_to_if`    — `match s: case <literal|dotted name>: ...` -> if/elif on `==`; `case Cls():` -> `isinstance(s, Cls)`
+                       (other patterns: left alone).
   * `sink_into_branches` — tail duplication: `if c: A else: B` followed by `S` -> `if c: A; S else: B; S` for a landmark
                        statement `S` (and the plain local assignments / logging between the `if` and `S`) — a call that
                        was duplicated in the two branches and is hoisted behind the if/else reads like the duplicated
@@ -213,11 +214,18 @@ class _Match(ast.NodeTransformer):
                 default = c.body
                 continue
             alts = p.patterns if isinstance(p, ast.MatchOr) else [p]
-            vals = [_literal_pattern(a) for a in alts]
-            # `case None/True/False` compare by identity: not an `==` chain
-            if any(v is None for v in vals):
-                return node
-            tests = [ast.Compare(left=copy.deepcopy(node.subject), ops=[ast.Eq()], comparators=[v]) for v in vals]
+            tests = []
+            for a in alts:
+                v = _literal_pattern(a)
+                if v is not None:
+                    tests.append(ast.Compare(left=copy.deepcopy(node.subject), ops=[ast.Eq()], comparators=[v]))
+                elif isinstance(a, ast.MatchClass) and not a.patterns and not a.kwd_patterns and _is_path(a.cls):
+                    # `case Cls():` (no sub-patterns, no capture) is by definition `isinstance(<subject>, Cls)`
+                    tests.append(ast.Call(func=ast.Name(id="isinstance", ctx=ast.Load()),
+                                          args=[copy.deepcopy(node.subject), a.cls], keywords=[]))
+                else:
+                    # `case None/True/False` compare by identity: not an `==` chain; captures / sub-patterns: left alone
+                    return node
             branches.append((tests[0] if len(tests) == 1 else ast.BoolOp(op=ast.Or(), values=tests), c.body))
         if not branches:
             return node
